@@ -18,6 +18,10 @@ import (
 // If 'exact' is true, choose a BigInt with _exactly_ that BitLen, not less
 func Bits(bitlen uint, exact bool, rand cipher.Stream) []byte {
 	b := make([]byte, (bitlen+7)/8)
+	if bitlen == 0 {
+		// Nothing to draw; in particular there is no top byte to mask or set.
+		return b
+	}
 	rand.XORKeyStream(b, b)
 	highbits := bitlen & 7
 	if highbits != 0 {
